@@ -218,6 +218,36 @@ theorem parser_sound (cfg : PCfg) (rx : RxOracle) (t : Template) (hwf : wfTempla
     (hb : cfg.embBody = .repaired ∨ noWholeBody t = true) : parse cfg rx (render t) = .ok (nodesOf t) :=
   parse_render cfg rx t hwf hb
 
+/-- Malformed expressions are rejected: a `$`-word (a `$` and everything up to the next `$ . { } #`) other than `$url`,
+    `$method`, `$statusCode`, `$request`, `$response` anywhere in the expression — top level, inside braces, after
+    `$request.` … — makes the parser raise, in every variant. -/
+theorem parser_rejects_unknown_variable (cfg : PCfg) (rx : RxOracle) (e : Str) (t : Token) (ht : t ∈ tokenize e)
+    (hv : t.type = .variable) (hk : isKw t.value = false) : ∃ err, parse cfg rx e = .error err := by
+  cases h : parse cfg rx e with
+  | error err => exact ⟨err, rfl⟩
+  | ok ns =>
+    have := parse_variables_known cfg rx e ns h t ht hv
+    rw [hk] at this
+    cases this
+
+example : (⟨"$foo".toList, 5, .variable⟩ : Token) ∈ tokenize "x{$foo}".toList ∧ isKw "$foo".toList = false := by
+  decide
+
+/-- Malformed expressions are rejected: nested braces, a closing brace without an open one, or an embedding left
+    open (braces = the `{` / `}` tokens, i.e. every brace outside a pointer) make the parser raise, in every variant. -/
+theorem parser_rejects_unbalanced_braces (cfg : PCfg) (rx : RxOracle) (e : Str)
+    (h : braceBalanced false ((tokenize e).map (·.type)) = false) : ∃ err, parse cfg rx e = .error err := by
+  cases hp : parse cfg rx e with
+  | error err => exact ⟨err, rfl⟩
+  | ok ns =>
+    have := parse_balanced cfg rx e ns hp
+    rw [h] at this
+    cases this
+
+example : braceBalanced false ((tokenize "{$url}}".toList).map (·.type)) = false ∧
+    braceBalanced false ((tokenize "a{{$url}".toList).map (·.type)) = false ∧
+    braceBalanced false ((tokenize "{$url}{$request.body#/a{}".toList).map (·.type)) = true := by decide
+
 /-- the full statement for the parser as found -/
 def parser_full : Prop :=
   ∀ (rx : RxOracle) (t : Template), wfTemplate rx t = true →
